@@ -766,3 +766,32 @@ Proof.
   - rewrite <- Htt. eapply as_group_qual_order; eassumption.
   - eapply Permutation_Forall; eassumption.
 Qed.
+
+(* ------------------------------------------------------------------------------------ *)
+(* Echo broadcast: every bundle is sent / re-sent to every other participant              *)
+(* ------------------------------------------------------------------------------------ *)
+
+Lemma dispatcher_senders_in sorted own S :
+  In S sorted -> p_addr S <> own -> In S (dispatcher_senders sorted own).
+Proof.
+  intros Hin Hne. unfold dispatcher_senders. apply filter_In. split; [exact Hin|].
+  destruct (bytes_eqb (p_addr S) own) eqn:E; [|reflexivity].
+  apply bytes_eqb_eq in E. contradiction.
+Qed.
+
+Lemma shape_ok_inv s : shape_ok s = true ->
+  d_one_sender_per_other s = true /\ d_echo s = AllSenders /\ d_direct s = AllSenders.
+Proof.
+  unfold shape_ok. intros H. apply andb_prop in H. destruct H as [H H3].
+  apply andb_prop in H. destruct H as [H1 H2].
+  destruct (d_echo s); try discriminate. destruct (d_direct s); try discriminate. auto.
+Qed.
+
+Lemma echo_delivery s sorted R S :
+  shape_ok s = true -> In S sorted -> p_addr S <> p_addr R ->
+  In S (echo_targets s sorted (p_addr R)) /\ In S (direct_targets s sorted (p_addr R)).
+Proof.
+  intros Hs Hin Hne. destruct (shape_ok_inv s Hs) as (H1 & H2 & H3).
+  unfold echo_targets, direct_targets. rewrite H1, H2, H3. cbn.
+  split; apply dispatcher_senders_in; assumption.
+Qed.
